@@ -37,7 +37,7 @@ let handle (lines : string list) : unit =
         if a = "aes" then begin
           bs := 16;
           let (e, c) = aes_set_key (not (has 'k')) (not (has 'c')) o m (n_of_int (max 0 (int_of_string bits))) key in
-          (match c with Some c -> ctx := A c | None -> ()); e end
+          (match c with Some c -> ctx := A c; ks := " ks=" ^ hex (impl_aes_ctx_bytes (n_of_int (max 0 (int_of_string bits))) key) | None -> ()); e end
         else if a = "des" then begin
           bs := 8;
           let (e, c) = des_set_key (not (has 'k')) (not (has 'c')) o m key in
